@@ -20,6 +20,7 @@ import (
 	"strings"
 	"sync"
 	"testing"
+	"time"
 
 	"github.com/nspcc-dev/neo-go/pkg/crypto/keys"
 	netmaprpc "github.com/nspcc-dev/neofs-contract/rpc/netmap"
@@ -42,29 +43,7 @@ var (
 // netmap processor sees a changed map at the next NewEpoch notification.
 func getWorld() *irchain.World {
 	worldOnce.Do(func() {
-		world, worldErr = irchain.NewWorld(false, nil)
-		if worldErr != nil {
-			return
-		}
-		w := world
-		nodeKey := irfix.Key(120)
-		node := &netmaprpc.NetmapNode2{Addresses: []string{"/ip4/10.0.0.1/tcp/8080"}, Attributes: map[string]string{"Price": "1", "Capacity": "100"}, Key: nodeKey.PublicKey(), State: netmaprpc.NodeStateOnline}
-		if worldErr = w.Admin.Invoke(w.Contracts.Netmap, "addNode", []*keys.PrivateKey{nodeKey}, node); worldErr != nil {
-			return
-		}
-		if worldErr = w.Admin.Invoke(w.Contracts.Netmap, "newEpoch", nil, 1); worldErr != nil {
-			return
-		}
-		// container creation is paid by the owner: make it free
-		if worldErr = w.Admin.Invoke(w.Contracts.Netmap, "setConfig", nil, []byte("verif-1"), []byte("ContainerFee"), 0); worldErr != nil {
-			return
-		}
-		for i := byte(0); i < 2; i++ {
-			c := testContainer(irfix.Key(100), i)
-			if worldErr = w.Admin.Invoke(w.Contracts.Container, "create", nil, c.Marshal(), []byte{}, []byte{}, []byte{}, "", "", false); worldErr != nil {
-				return
-			}
-		}
+		world, worldErr = irchain.NewWorld(false, prepareChain)
 	})
 	if worldErr != nil {
 		fmt.Println("VERIF-INCONCLUSIVE: cannot start the local FS chain:", worldErr)
@@ -73,13 +52,63 @@ func getWorld() *irchain.World {
 	return world
 }
 
+var (
+	nodeKeys   = []*keys.PrivateKey{irfix.Key(120), irfix.Key(121)}
+	chainEpoch = 0
+)
+
+func netmapNode(k *keys.PrivateKey) *netmaprpc.NetmapNode2 {
+	return &netmaprpc.NetmapNode2{Addresses: []string{"/ip4/10.0.0.1/tcp/8080"}, Attributes: map[string]string{"Price": "1", "Capacity": "100"}, Key: k.PublicKey(), State: netmaprpc.NodeStateOnline}
+}
+
+// prepareChain: one storage node in the network map (epoch 1), free container
+// creation, two containers.
+func prepareChain(w *irchain.World) error {
+	if err := w.Admin.Invoke(w.Contracts.Netmap, "addNode", []*keys.PrivateKey{nodeKeys[0]}, netmapNode(nodeKeys[0])); err != nil {
+		return err
+	}
+	if err := w.Admin.Invoke(w.Contracts.Netmap, "newEpoch", nil, 1); err != nil {
+		return err
+	}
+	chainEpoch = 1
+	if err := w.Admin.Invoke(w.Contracts.Netmap, "setConfig", nil, []byte("verif-1"), []byte("ContainerFee"), 0); err != nil {
+		return err
+	}
+	for i := byte(0); i < 2; i++ {
+		c := testContainer(irfix.Key(100), i)
+		if err := w.Admin.Invoke(w.Contracts.Container, "create", nil, c.Marshal(), []byte{}, []byte{}, []byte{}, "", "", false); err != nil {
+			return err
+		}
+	}
+	return nil
+}
+
+// changeNetmap adds or removes the second storage node and ticks the epoch on
+// the chain, so that the next NewEpoch notification finds a changed map.
+var secondNodeIn = false
+
+func changeNetmap(w *irchain.World) error {
+	var err error
+	if secondNodeIn {
+		err = w.Admin.Invoke(w.Contracts.Netmap, "deleteNode", nil, nodeKeys[1].PublicKey().Bytes())
+	} else {
+		err = w.Admin.Invoke(w.Contracts.Netmap, "addNode", []*keys.PrivateKey{nodeKeys[1]}, netmapNode(nodeKeys[1]))
+	}
+	if err != nil {
+		return err
+	}
+	secondNodeIn = !secondNodeIn
+	chainEpoch++
+	return w.Admin.Invoke(w.Contracts.Netmap, "newEpoch", nil, chainEpoch)
+}
+
 // maxWrites: handlers that legitimately perform several distinct actions per event.
 func maxWrites(name string) int {
 	switch name {
 	case "netmap/NewEpoch": // one placement update per container (2) when the map changed
 		return 2
-	case "alphabet/NewEpoch->emit": // emit + one GAS transfer per storage node (1)
-		return 2
+	case "alphabet/NewEpoch->emit": // emit + one GAS transfer per storage node (<= 2)
+		return 3
 	case "neofs/Deposit->mint": // mint + GAS emission
 		return 2
 	case "settlement/basic income timer": // one payment per container
@@ -121,6 +150,14 @@ func TestC35Chain(t *testing.T) {
 			idx = rapid.IntRange(-1, 1).Draw(t, "wouldBeIndex")
 		}
 		v := genVariation(t)
+		name := h.Proc + "/" + h.Name
+		mapChanged := false
+		if name == "netmap/NewEpoch" && s.name == "member-key" && rapid.Bool().Draw(t, "changeNetmapFirst") {
+			if err := changeNetmap(w); err != nil {
+				t.Fatalf("harness: cannot change the network map on chain: %v", err)
+			}
+			mapChanged = true
+		}
 		height, err := w.Admin.Height()
 		if err != nil {
 			t.Fatalf("harness: %v", err)
@@ -134,14 +171,16 @@ func TestC35Chain(t *testing.T) {
 		}
 		s.env.F.State.Set(idx, mode == "lookup-error")
 		s.env.F.Epoch.SetEpochCounter(uint64(rapid.IntRange(0, 2).Draw(t, "localEpoch")))
-		name := h.Proc + "/" + h.Name
 
 		s.env.WaitIdle()
 		s.env.Dropped()
 		s.proxy.Reset()
 		for {
 			h.Call(event)
-			s.env.WaitIdle()
+			if !s.env.WaitIdleTimeout(2 * time.Minute) {
+				fmt.Printf("VERIF-INCONCLUSIVE: %s/%s (%s, %s) did not finish within 2 minutes; RPCs so far: %s\n", h.Proc, h.Name, s.name, mode, neoproxy.Describe(s.proxy.Calls()))
+				os.Exit(3)
+			}
 			if !s.env.Dropped() {
 				break
 			}
@@ -151,6 +190,9 @@ func TestC35Chain(t *testing.T) {
 
 		mayAct := s.name == "member-key" && mode == "member"
 		labels := []string{s.name + "/" + mode, name}
+		if mapChanged {
+			labels = append(labels, "new-epoch-with-changed-netmap/"+mode)
+		}
 		if len(writes) > 0 {
 			labels = append(labels, "wrote:"+s.name+"/"+mode, "wrote:"+name)
 		}
@@ -209,4 +251,57 @@ func describeWrites(ws []neoproxy.Call) string {
 		sb.WriteString("[" + c.Method + " undecodable] ")
 	}
 	return sb.String()
+}
+
+// TestC35NewEpochOutsider: a node whose key is NOT in the committee receives a
+// NewEpoch notification after the network map changed. netmap.processNewEpoch
+// has no membership guard before updatePlacementInContract; the only thing
+// between it and a chain write is the morph client refusing to build the
+// alphabet multi-signature account without the own key. Oracle: no write RPC.
+// Observation (label, not a failure): the handler then sits in the exponential
+// back-off retry of UpdateContainerPlacement (up to 15 min per container),
+// holding a netmap worker.
+func TestC35NewEpochOutsider(t *testing.T) {
+	rec := ev.New("C35", "new-epoch-outsider")
+	defer rec.Flush()
+	w := getWorld()
+	proxy, env, err := w.NewEnv(irchain.OutsiderKey())
+	if err != nil {
+		ev.Inconclusive("cannot attach processors: %v", err)
+	}
+	// deliberately not closed: the handler may still be retrying (see above)
+	hs, err := env.Handlers()
+	if err != nil {
+		ev.Inconclusive("%v", err)
+	}
+	if err := changeNetmap(w); err != nil {
+		ev.Inconclusive("cannot change the network map: %v", err)
+	}
+	for _, mode := range []string{"non-member"} {
+		env.F.State.Set(-1, false)
+		var h irsetup.Handler
+		for _, x := range hs {
+			if x.Proc+"/"+x.Name == "netmap/NewEpoch" {
+				h = x
+			}
+		}
+		event, err := h.Event(env, irsetup.Variation{Epoch: uint64(chainEpoch), Salt: 1})
+		if err != nil {
+			t.Fatal(err)
+		}
+		proxy.Reset()
+		h.Call(event)
+		finished := env.WaitIdleTimeout(5 * time.Second)
+		writes := proxy.Writes()
+		label := "finished"
+		if !finished {
+			label = "stuck-in-placement-update-retry"
+		}
+		rec.Case(true, "outsider|netmap/NewEpoch|changed-map|"+mode, label)
+		rec.Sample(map[string]any{"finished": finished, "rpc": neoproxy.Describe(proxy.Calls())})
+		if len(writes) > 0 {
+			t.Fatalf("outsider key: netmap/NewEpoch sent write RPCs: %s", describeWrites(writes))
+		}
+		t.Logf("outsider NewEpoch with changed map: finished=%v, RPCs: %s", finished, neoproxy.Describe(proxy.Calls()))
+	}
 }
